@@ -314,6 +314,19 @@ def _m_sum(eng, recv, args, kwargs):
 
 def _m_reshape(eng, recv, args, kwargs):
     shp = args[0] if len(args) == 1 and isinstance(args[0], (tuple, list)) else tuple(args)
+    if any(isinstance(d, Sym) for d in shp):
+        # a symbolic extent of a concrete-size array: numpy accepts exactly one value for it (size / product of the others)
+        sym = [j for j, d in enumerate(shp) if isinstance(d, Sym)]
+        rest = 1
+        for j, d in enumerate(shp):
+            if j not in sym:
+                rest *= int(d)
+        if len(sym) != 1 or rest <= 0 or len(recv.items) % rest:
+            raise Unsupported("reshape with symbolic extents")
+        c = len(recv.items) // rest
+        if not eng.branch(eng.sbool(to_z3(shp[sym[0]], "int") == c)):
+            raise ProgExc(ValueError, "cannot reshape array")
+        shp = tuple(c if j == sym[0] else int(d) for j, d in enumerate(shp))
     try:
         ix = idx_of(recv).reshape(shp)
     except ValueError as e:
